@@ -175,11 +175,17 @@ class Context:
     def unk(self, rule, construct, where, detail, **extra):
         return self.ob(rule, construct, UNDECIDED, where, detail, **extra)
 
-    def floor(self, name: str, found: int, floor: int) -> None:
-        """Instance floor: a rule that matches fewer constructs than were confirmed
-        by hand must not pass vacuously."""
+    def floor(self, name: str, found: int, floor: int, soft: bool = False) -> None:
+        """Instance floor: a rule that matches fewer constructs than were confirmed by hand must not pass vacuously.
+        A hard floor (anchors of the analysis: modules, API roots) fails the run (exit 2).  A soft floor counts things the
+        interpreter managed to model; when the code has been rewritten with constructs it does not follow, falling below it is
+        reported as an UNDECIDED obligation: nothing was shown, and that is said, but it is neither a violation nor a broken run."""
         self.floors.append((name, found, floor))
         if found < floor:
+            if soft:
+                self.unk(f"{self.prop}.floor", f"analysis coverage: {name}", "", f"only {found} (expected at least {floor}): "
+                         f"the code uses constructs the analysis does not follow; the obligations that depend on them are not decided")
+                return
             raise AnalysisError(f"instance floor not met: {name}: found {found} < {floor}")
 
     def require(self, cond: bool, what: str) -> None:
